@@ -354,6 +354,8 @@ def program(r, size=3):
 #          and/or/not, unary minus, nested blocks;
 # stage 2: + mutable variables and assignments (= += -= *=), if/elif/else statements, if-expressions,
 #          loops with break/continue.
+# stages 3..6: global values, top-level functions, early returns, definitions after start.
+# stage 7: local functions in the body of `start` that capture and change its mutable locals.
 
 class FragGen:
     def __init__(self, r, stage=1):
@@ -480,7 +482,12 @@ class FragGen:
             for _ in range(self.r.randint(1, 3)):
                 out += self.function(env)
         out.append("start :: fn do")
-        out += self.block(env, 2, 1, self.r.randint(3, 8))
+        if self.stage >= 7:
+            # stage 4c: local functions at the top level of a body; they capture (and change) the mutable locals of
+            # the enclosing function, see later assignments, call each other and the outer functions
+            out += self.body_with_local_functions(env, 1)
+        else:
+            out += self.block(env, 2, 1, self.r.randint(3, 8))
         out.append("end")
         if self.stage >= 6:
             # stage 4b: outer definitions after start (the resolver keeps them after it: start does not use them)
@@ -493,6 +500,37 @@ class FragGen:
                 else:
                     out += self.function(env2)
         return "\n".join(out) + "\n"
+
+    def body_with_local_functions(self, env, ind):
+        r = self.r
+        pad = "  " * ind
+        env = {k: list(v) for k, v in env.items()}
+        env.setdefault("funs", [])
+        out = []
+        for _ in range(r.randint(1, 2)):
+            m = self.fresh("m")
+            out.append("%s%s := %s" % (pad, m, self.int_expr(env, 1)))
+            env["ints"].append(m); env["muts"].append(m)
+        for _ in range(r.randint(1, 3)):
+            lf = self.fresh("lf")
+            nparams = r.randint(0, 2)
+            params = [self.fresh("p") for _ in range(nparams)]
+            fenv = {"ints": list(env["ints"]) + params, "bools": list(env["bools"]), "muts": list(env["muts"]), "funs": list(env["funs"])}
+            out.append("%s%s :: fn %s-> int do" % (pad, lf, "".join("%s: int, " % p for p in params)[:-2] + " " if params else ""))
+            out.append("%s  %s %s %s" % (pad, r.choice(env["muts"]), r.choice(["+=", "-=", "="]), self.int_expr(fenv, 0)))
+            out += self.block(fenv, 1, ind + 1, r.randint(0, 2))
+            if r.random() < 0.3:
+                out.append("%s  if %s do ret %s end" % (pad, self.bool_expr(fenv, 1), self.int_expr(fenv, 1)))
+            out.append("%s  %s" % (pad, self.int_expr(fenv, 2)))
+            out.append("%send" % pad)
+            env["funs"].append((lf, nparams))
+            # the enclosing body goes on: assignments to the captured variables, calls
+            out += self.block(env, 1, ind, r.randint(0, 2))
+            out.append("%s%s %s %s" % (pad, r.choice(env["muts"]), r.choice(["=", "+=", "-="]), self.int_expr(env, 0)))
+            out.append("%sprint(%s(%s))" % (pad, lf, ", ".join(self.int_expr(env, 0) for _ in range(nparams))))
+            out.append("%sprint(%s)" % (pad, r.choice(env["muts"])))
+        out += self.block(env, 2, ind, r.randint(1, 4))
+        return out
 
     def function(self, env):
         r = self.r
